@@ -149,6 +149,13 @@ def run_dyn(binary, seed):
     return p.returncode, lines, p.stderr[-4000:]
 
 
+def split_skipped(ls):
+    """`=> skipped`: a backstep case for which the harness obtained no two agreeing valid observations (machine load):
+    no claim is made for it."""
+    keep = [l for l in ls if not l.endswith(" => skipped")]
+    return keep, len(ls) - len(keep)
+
+
 def driver(mode, text):
     lines, err = core.run_lean(PROP, mode, text)
     if lines is None:
@@ -314,7 +321,8 @@ def dynamic(ctx, rows):
             if rc != 0 or not ls:
                 ctx.violation(f"dyn-run-{a}.txt", f"harness {a} seed {seed} exited {rc}\n{err}", no_input=True)
                 break
-            lines += [(a, seed, l) for l in ls]
+            lines += [(a, seed, l) for l in split_skipped(ls)[0]]
+            cov["backstep_skipped"] = cov.get("backstep_skipped", 0) + split_skipped(ls)[1]
             for n in err.splitlines():
                 if n.startswith("note ") and n not in cov.setdefault("dynamic_notes", []) and len(cov["dynamic_notes"]) < 12:
                     cov["dynamic_notes"].append(n)
